@@ -93,13 +93,16 @@ Definition prev_entry (s : ispec) (done : history) (e : entry) : option (tx * en
 
 (* what transaction t contributes to the index: for every indexable entry its target key, and —
    for an injective mapping — a tombstone on the target key its previous version was mapped to,
-   when that differs *)
+   when that differs and the previous version was live *)
 Definition entry_kvs (s : ispec) (done : history) (t : tx) (e : entry) : list (bytes * ver) :=
   if indexable s e then
     (tkey s e, {| v_tx := t_id t; v_txmd := t_md t; v_md := e_md e; v_e := e |}) ::
     (if tomb_active s then
        match prev_entry s done e with
        | Some (pt, pe) =>
+           (* a previous version that is itself a logical delete already deleted its mapped key
+              when it was indexed: nothing to add *)
+           if kv_deleted (e_md pe) then [] else
            let pk := mapk (tmap s) (skey s e) (e_val pe) in
            if bytes_eqb pk (tkey s e) then []
            else [(pk, {| v_tx := t_id t; v_txmd := t_md pt; v_md := set_deleted (e_md pe); v_e := pe |})]
